@@ -94,6 +94,9 @@ class Cluster:
 
     # values depend on the last two gaps only, so translated states have equal futures
     def next_value(self, gap):
+        if self.cfg.get("float_values"):
+            # non-dyadic values of very different magnitude: an interpolation formula that is not bit-exact at the end points shows
+            return 100.0 if gap == 0 else [0.1, 0.3, 0.7][gap - 1] * (1 + 10 * self.last_gap)
         return 100 + 10 * gap + self.last_gap
 
     def push(self, gap):
@@ -101,7 +104,7 @@ class Cluster:
         v = self.next_value(gap)
         self.out.push_data(payload_value(self.cfg.get("payload", "scalar"), v), t)
         self.newest, self.last_gap = t, gap
-        self.source.publish(hrs(t), Fr(v))
+        self.source.publish(hrs(t), Fr(v))  # Fr(float) is exact
 
     def on_get(self, time, target):
         if self.cur_pull is None or isinstance(target, fm.Adapter):
@@ -167,6 +170,10 @@ class Cluster:
         kind = self.cfg.get("payload", "scalar")
         val = scalar_of(kind, got)
         scale = Fr(self.cfg.get("value_scale", 1))
+        if self.cfg.get("exact_at_publications") and any(t == ht for ht, _ in self.source.hist) and exp is not R.ANY:
+            # "the published value exactly at publication times": bit-identical, no tolerance
+            if not any(float(e * scale) == val for e in exp):
+                self.viol.append(("exact", dict(kind="not_exact_at_publication_time", chain=cls), f"consumer {k} chain {chain} pull at publication time {float(t)} got {val!r}, published {sorted(float(x * scale) for x in exp)!r}"))
         if exp is not R.ANY and not any(R.close(e * scale, val) for e in exp):
             self.viol.append(("value", dict(kind="wrong_value", chain=cls), f"consumer {k} chain {chain} pull at {float(t)} got {val}, reference {sorted(float(x * scale) for x in exp)} (history {[(float(a), float(b)) for a, b in self.source.hist]})"))
         want_shape = (1,) if kind == "scalar" else (1, 2, 2)
